@@ -72,6 +72,21 @@ def compare(ref: dict, other: dict, grouped: bool) -> Optional[dict]:
     return unexplained or explained
 
 
+def failed_run_violation(scn_v: dict, tr: dict, ref_desc: dict, desc: dict) -> Optional[dict]:
+    """The reference run of this scenario completed, this run did not: the outcome depends on the schedule or
+    the configuration -- unless the failure is one of C05's open known findings (classified with C05's own
+    annotation and predicates)."""
+    from . import c05
+    a = Analysis(scn_v, tr)
+    c05.post(scn_v, tr, a)
+    vs = a.viol["C05"]
+    if vs and all(findings.match("C05", v) is not None for v in vs):
+        return None
+    o = tr["outcome"]
+    return {"kind": "outcome_differs", "run_a": ref_desc, "run_b": desc, "b_outcome": {
+        "type": o.get("type"), "msg": (o.get("msg") or "")[:200], "where": o.get("where")}, "mech": None}
+
+
 def summarize(scn_v: dict, tr: dict, desc: dict) -> Optional[dict]:
     if tr["outcome"]["kind"] != "ok":
         return None
@@ -156,10 +171,21 @@ def run_slice(job: dict) -> dict:
             for k in ("cache", "lazy", "debug"):
                 C[f"runs_{k}_{'on' if cfg[k] else 'off'}"] += 1
             C["runs_order_permuted" if cfg["order_seed"] is not None else "runs_order_declared"] += 1
-            o = summarize(scn_v, tr, {"config": cfg, "sched": {k: sched[k] for k in sched if k != "schedule"}})
+            vdesc = {"config": cfg, "sched": {k: sched[k] for k in sched if k != "schedule"}}
+            o = summarize(scn_v, tr, vdesc)
             if o is None:
                 C["variant_run_failed"] += 1
                 res["aborted"] += 1
+                fv = failed_run_violation(scn_v, tr, ref["desc"], vdesc)
+                if fv is None:
+                    C["variant_run_failed_known_c05_finding"] += 1
+                else:
+                    C["unlisted_violations"] += 1
+                    C["violation_outcome_differs"] += 1
+                    if n_unl < 8:
+                        n_unl += 1
+                        rs = dict(sched, orig_policy=sched["policy"], policy="replay", schedule=tr["schedule"])
+                        res["violations"].append({"v": fv, "replay": {"scn": scn, "ref_cfg": ref_cfg, "cfg": cfg, "sched": rs}})
                 continue
             orders.add(o["oh"])
             if o["infl"] >= 2:
@@ -256,6 +282,10 @@ def replay(rep: dict) -> List[dict]:
                  "labels": {sid: [] for sid in ref["seq"]}, "sub": set(), "desc": "remote", "steps": 0}
     else:
         other = summarize(scn_v, run_case(scn_v, dict(r["sched"])), {"config": r["cfg"], "sched": "replay"})
+    if ref is not None and other is None and r["sched"] != "remote":
+        tr = run_case(scn_v, dict(r["sched"]))
+        fv = failed_run_violation(scn_v, tr, ref["desc"], "replay") if tr["outcome"]["kind"] != "ok" else None
+        return [fv] if fv else []
     if ref is None or other is None:
         return []
     d = compare(ref, other, grouped)
@@ -284,7 +314,8 @@ def evidence(m, tier, seed):
     return {"level": "exploration", "coverage": {
         "rule": "case = one run of a scenario; all runs of a scenario (atomic reference, schedule policies, start-order "
                 "permutations, lazy/cache/debug on/off, exhaustive DFS over reply completions at quiescent points for "
-                "small scenarios, real remote processes) must give every simulator the same (time, k, inputs) sequence; "
+                "small scenarios, real remote processes) must give every simulator the same (time, k, inputs) sequence, and "
+                "a run must not fail where the reference run of the scenario completes; "
                 "distinct = hash(scenario, config, global event order); non-trivial = two simulators in flight at once",
         "exhaustive": False,
         "dfs_exhausted_examples": m["exhausted"][:5],
